@@ -5,8 +5,8 @@
 package c09
 
 import (
-	"encoding/hex"
 	"bytes"
+	"encoding/hex"
 	"errors"
 	"fmt"
 	"io"
@@ -48,20 +48,20 @@ type Try struct {
 // password, the owner password (if not empty) and no password are always
 // tried; Tries holds the others.
 type Case struct {
-	Version string    `json:"version"` // "1.1" .. "2.0"
-	Human   bool      `json:"human_readable"`
-	Seek    bool      `json:"seekable"` // write to a seekable in-memory file instead of a plain io.Writer
-	User    string    `json:"user"`
-	Owner   string    `json:"owner"`
-	Perm    int       `json:"perm"` // bit 0 copy, 1 print degraded, 2 print, 3 forms, 4 annotate, 5 assemble, 6 modify
-	Meta    int       `json:"meta"` // 0 no XMP metadata, 1 encrypted, 2 plaintext
-	Title   string    `json:"title"`
+	Version string `json:"version"` // "1.1" .. "2.0"
+	Human   bool   `json:"human_readable"`
+	Seek    bool   `json:"seekable"` // write to a seekable in-memory file instead of a plain io.Writer
+	User    string `json:"user"`
+	Owner   string `json:"owner"`
+	Perm    int    `json:"perm"` // bit 0 copy, 1 print degraded, 2 print, 3 forms, 4 annotate, 5 assemble, 6 modify
+	Meta    int    `json:"meta"` // 0 no XMP metadata, 1 encrypted, 2 plaintext
+	Title   string `json:"title"`
 	// ID holds 0, 1 or 2 caller-chosen file identifier elements (hex); with
 	// one element the Writer adds a random second one.  Revisions 2-4 key the
 	// file with the first element.
-	ID   []string  `json:"id,omitempty"`
-	Objs []ObjSpec `json:"objs"`
-	Tries   []Try     `json:"tries"`
+	ID    []string  `json:"id,omitempty"`
+	Objs  []ObjSpec `json:"objs"`
+	Tries []Try     `json:"tries"`
 
 	obs observed
 }
@@ -261,7 +261,25 @@ func (c *Case) write() (data []byte, items []item, meta *pdf.MetadataStream, wer
 	if c.Seek {
 		sink = mf
 	}
+	before := *opt
+	beforeID := make([][]byte, len(opt.ID))
+	for i, id := range opt.ID {
+		beforeID[i] = append([]byte{}, id...)
+	}
 	w, werr := pdf.NewWriter(sink, v, opt)
+	// The options are the caller's: the same value may be used for the next
+	// document, with one field changed.
+	if opt.UserPassword != before.UserPassword || opt.OwnerPassword != before.OwnerPassword ||
+		opt.UserPermissions != before.UserPermissions || opt.HumanReadable != before.HumanReadable ||
+		opt.DocumentMetadata != before.DocumentMetadata || len(opt.ID) != len(beforeID) {
+		return nil, nil, nil, nil, fmt.Errorf("NewWriter modified the caller's WriterOptions: user %q -> %q, owner %q -> %q, permissions %v -> %v",
+			before.UserPassword, opt.UserPassword, before.OwnerPassword, opt.OwnerPassword, before.UserPermissions, opt.UserPermissions)
+	}
+	for i := range beforeID {
+		if !bytes.Equal(beforeID[i], opt.ID[i]) {
+			return nil, nil, nil, nil, fmt.Errorf("NewWriter modified the caller's WriterOptions.ID[%d]", i)
+		}
+	}
 	if werr != nil {
 		return nil, nil, nil, werr, nil
 	}
